@@ -366,3 +366,30 @@ Theorem load_bytes_prev_oob rel h L t :
   (N.of_nat (len (render_history_view h L)) <= t)%N ->
   load_bytes rel (render_history_classic h L) = Rejected.
 Proof. intros Wh Wl Ht. exact (load_bytes_prev_dangling rel h L (Some t) Wh Wl t eq_refl (or_intror Ht)). Qed.
+
+(* ---------- an incremental update, seen as a relation between TWO files ----------
+   The file of the history [h ++ [r]] (any layouts) defines exactly what the file of [h] alone (any, unrelated, layouts)
+   defines, overridden by what the update [r] says: a number [r] (re)defines is bound to the new value under the new
+   generation only, a number [r] frees is undefined under every generation, every other identifier keeps the
+   binding the old file gives it.  The root is the update's. *)
+Theorem load_bytes_update_classic rel h r L L' :
+  wf_history h -> wf_layouts h L' -> wf_history (h ++ [r]) -> wf_layouts (h ++ [r]) L ->
+  exists c c',
+    load_bytes rel (render_history_classic h L') = Loaded c' (latest_root h) /\
+    load_bytes rel (render_history_classic (h ++ [r]) L) = Loaded c (r_root r) /\
+    forall id, ctx_get c id =
+      match rev_mention r (fst id) with
+      | Some (Some (g, v)) => if N.eqb g (snd id) then Some (VObj v) else None
+      | Some None => None
+      | None => ctx_get c' id
+      end.
+Proof.
+  intros Wh Wl' Wh2 Wl.
+  destruct (load_bytes_history_classic rel h L' Wh Wl') as (c' & Ld' & K').
+  destruct (load_bytes_history_classic rel (h ++ [r]) L Wh2 Wl) as (c & Ld & K).
+  exists c, c'. split; [exact Ld'|]. split.
+  - rewrite Ld. unfold latest_root. rewrite last_last. reflexivity.
+  - intros id. rewrite K. destruct (rev_mention r (fst id)) as [m|] eqn:M.
+    + rewrite (resolve_h_newest h r id m M). destruct m as [[g v]|]; [destruct (N.eqb g (snd id)); reflexivity|reflexivity].
+    + rewrite (resolve_h_older h r id M). symmetry. apply K'.
+Qed.
